@@ -5,6 +5,7 @@ import (
 	"encoding/json"
 	"fmt"
 	"math"
+	"reflect"
 	"strings"
 	"testing"
 
@@ -499,7 +500,22 @@ func checkHold(c WalkCase) (v ev.Verdict) {
 	if changed("after the call") {
 		return
 	}
-	// returned states must not share a bindings map with the input
+	// returned states must not share a bindings map with the input:
+	// neither as their own bindings nor anywhere inside them (the
+	// diagnostics of an error transition hold "the bindings at that
+	// point" - a copy of them)
+	if st.Bs != nil {
+		given := reflect.ValueOf(st.Bs).Pointer()
+		for i, s := range states {
+			if s == nil || s.Bs == nil {
+				continue
+			}
+			if where := holdsMap(map[string]interface{}(s.Bs), given, "bindings"); where != "" {
+				v.Failf("returned state %d holds the very bindings map that was given to the call, at %s", i, where)
+				return
+			}
+		}
+	}
 	for i, s := range states {
 		if s == nil || s.Bs == nil {
 			continue
@@ -550,6 +566,31 @@ func checkHold(c WalkCase) (v ev.Verdict) {
 	}
 	v.NonTrivial = strings.Contains(s, "actionError") || strings.Contains(s, "-> error ") || o1.stopped == "Limited" || o1.err != "" || inplace
 	return
+}
+
+// holdsMap reports where (if anywhere) inside v the map with the given
+// address occurs.
+func holdsMap(v interface{}, addr uintptr, path string) string {
+	switch vv := v.(type) {
+	case match.Bindings:
+		return holdsMap(map[string]interface{}(vv), addr, path)
+	case map[string]interface{}:
+		if vv != nil && reflect.ValueOf(vv).Pointer() == addr {
+			return path
+		}
+		for k, x := range vv {
+			if w := holdsMap(x, addr, path+"."+k); w != "" {
+				return w
+			}
+		}
+	case []interface{}:
+		for i, x := range vv {
+			if w := holdsMap(x, addr, fmt.Sprintf("%s[%d]", path, i)); w != "" {
+				return w
+			}
+		}
+	}
+	return ""
 }
 
 func TestC06Hold(t *testing.T) {
